@@ -64,6 +64,12 @@ void *pool_build(uint64_t seed) {
     // repetitive text: many matches of the same needle, many pieces, many tokens (random text has each character about once in a hundred)
     { std::string rep; for (int i = 0; i < 24; i++) rep += "the quick brown fox, "; p->strs.push_back(ST::string::from_validated(rep.data(), rep.size())); }
     { std::string rep; for (int i = 0; i < 40; i++) rep += (i % 3) ? "ab;c d," : "\xC3\xA9e e,"; p->strs.push_back(ST::string::from_validated(rep.data(), rep.size())); }
+    // objects with a past (done last: nothing reallocates the vectors afterwards). Indices 10-14 repeat size classes that exist elsewhere in the pool.
+    // 11, 13: the source of a move construction, not touched since; 12: cleared; 14: the source of a move assignment. All are valid, empty
+    // objects, and reading them concurrently is as legitimate as reading any other shared object.
+    { ST::string t(std::move(p->strs[11])); ST::string u(std::move(p->strs[13])); p->strs[12].clear(); ST::string v; v = std::move(p->strs[14]); }
+    { ST::char_buffer t(std::move(p->b8[11])); ST::utf16_buffer u(std::move(p->b16[11])); ST::utf32_buffer v(std::move(p->b32[13])); ST::wchar_buffer w(std::move(p->bw[13]));
+      p->b8[12].clear(); p->b16[12] = ST::null; ST::char_buffer a; a = std::move(p->b8[14]); ST::wchar_buffer b; b = std::move(p->bw[14]); }
     return p;
 }
 void pool_destroy(void *pool) { delete static_cast<Pool *>(pool); }
